@@ -6,7 +6,7 @@ from .. import clsrun, structures, tlc
 from ..common import MachineryError, Run, dump_ndjson, pmap, scratch
 
 VARIANTS = [{}, {"min_coverage": 0.9}, {"cluster_threshold": 2.0}, {"min_coverage": 0.25, "max_cell_size": 8}, {"pos_tol": 0.5, "pos_tol_mode": "absolute"},
-            {"min_coverage": 0.97}, {"bond_threshold": 0.5}]
+            {"min_coverage": 0.97}, {"bond_threshold": 0.5}, {"cluster_threshold": 4.5}]
 
 
 def run(tier):
@@ -22,6 +22,11 @@ def run(tier):
         vs = [VARIANTS[k % len(VARIANTS)]] if tier == "quick" else [VARIANTS[0], VARIANTS[1 + k % (len(VARIANTS) - 1)]]
         for p in vs:
             jobs.append((kind, desc, p, {"rigid": k % 2 == 0}))
+    # sparse, defective lattices whose connectivity relies on long links (thresholds above the default matter)
+    for i, a0 in enumerate([5.8, 6.4, 7.0]):
+        for j, pbc in enumerate([(True, True, True), (True, True, False)]):
+            jobs.append(("crystallite", {"el": "Cu", "lattice": "sc", "a": a0, "reps": (2, 2, 2), "pbc": pbc, "vacancies": 1 + j, "noise": 0.1, "i": 300 + i * 2 + j},
+                         {"cluster_threshold": 4.5}, {"rigid": False}))
     # entirely non-periodic structures without any cell
     jobs += [("gas", {"n": n, "cell": "orthogonal", "pbc": (False, False, False), "L": 6.0, "nocell": True, "i": 900 + n}, {}, {}) for n in (1, 2, 7)]
     recs = pmap(clsrun.execute_c17, jobs, chunksize=2)
@@ -42,6 +47,24 @@ def run(tier):
     run.add_model(tres, "TraceClassifier(C17): %d classifications" % len(keep))
     run.traces(len(keep))
     clsrun.region_layer(run, keep, d, lambda r: -1)
+    # the dimensionality reference is itself validated against the definition (Dimensionality.tla) at the classifier's threshold
+    dr = []
+    for r in keep:
+        if r.get("dimref"):
+            x = dict(r["dimref"], tid=len(dr) + 1, src=r["tid"], cfg=str(r["desc"]))
+            dr.append(x)
+    if dr:
+        tp2 = os.path.join(d, "dimref.ndjson")
+        dump_ndjson(tp2, dr)
+        dres = tlc.run("TraceDim.tla", "TraceDim.cfg", env={"TRACE_FILE": tp2}, timeout=1800)
+        if dres.distinct != 2 * len(dr):
+            raise MachineryError("TraceDim consumed %d of %d records" % (dres.distinct // 2, len(dr)))
+        run.add_model(dres, "TraceDim: dimensionality reference of %d classified structures vs. the definition" % len(dr))
+        for tid, clause in dres.printed("FAIL"):
+            r = keep[dr[tid - 1]["src"] - 1]
+            run.violation("C17 clause=DimensionalityIsTheDefinition(%s) kind=%s desc=%s params=%s" % (clause, r["kind"], sorted(r["desc"].items()), sorted(r["params"].items())),
+                          "get_dimensionality at the classifier's threshold disagrees with the definition (%s): dim=%s" % (clause, dr[tid - 1]["dim"]), {"kind": r["kind"], "desc": r["desc"], "params": r["params"]})
+        run.notes["dimension_references_validated"] = len(dr)
     for tid, clause in tres.printed("FAIL"):
         r = keep[tid - 1]
         if clause.startswith("DRIFT"):
